@@ -28,7 +28,9 @@ confirm it, what the checks reported) and the author's own `AGENT_README.md`.
 
 The changes were written by independent sub-agents that were given only the text of one property, general rules and a
 scratch git worktree (nothing from /verif). In round 7 (ids listed with a 'round 7' note in meta.json) they were also told, in
-general terms, what the checks already do and were asked to find a slip the checks would still miss. Each was kept only after `scripts/confirm_seeded.sh` confirmed, in that
+general terms, what the checks already do and were asked to find a slip the checks would still miss; in rounds 8 and 9
+they were given the titles of the earlier changes for their property (to pick another mechanism) and, in round 9, a
+theme (error paths, other threads, navigation rules, preference files, lazy loading layers, position arithmetic). Each was kept only after `scripts/confirm_seeded.sh` confirmed, in that
 worktree: the crate compiles, the suite's result equals the baseline (all 3249 baseline tests still pass), the
 demonstration fails with the change and passes without it. `scripts/with_repo.sh` then ran the registered quick
 check(s) against the changed worktree (never against /repo). To repeat everything: `scripts/sensitivity.sh seeded`.
@@ -51,6 +53,14 @@ History of misses and what was strengthened:
   preference snapshot was not part of a probe round. Added to every probe round: a second part on an expression with
   separator-bearing numbers (set_mathml, speech, braille; compared with the pre-fault round and with its own fresh
   session) and the full preference snapshot. Now detected.
+- Rounds 8 and 9: `C08-failed-definitions-read-marked-current` was first missed by C08 (its random histories broke
+  English files only; C14 caught it) -> directed switch-into-a-broken-file scenarios in C08.
+  `C20-routing-restore-drops-api-set-mark` was first missed by C20 (delayed effect, invisible to before/after
+  snapshots; C12 and C08 caught it) -> run-level control "same history without the queries" and prefs.yaml touches in
+  C20. `C12-braille-position-error-leaves-temp-highlight-pref` was first missed by C12, C20 and C14 (needs a failure
+  inside a routing probe after the up-front reload succeeded) -> directed scenarios with the lazily read braille
+  unicode-full.yaml broken in C12 and C20. `C10-shared-parsed-prefs-carry-api-values` (process-wide cache) is reported
+  by the solo run in a pristine child process added in that round.
 - The first C14 run against `C14-nested-include-times-dropped` reported a false class first (an injected read error
   on the always-failing probe for `xx.zip`); injections are now only placed on reads that would succeed.
 - A stale-build problem was found while testing these changes (cargo reused an artifact of the same path after a
